@@ -101,6 +101,46 @@ def classify(exc):
     return "guard" if table.get(last.lineno, False) else "crash"
 
 
+def _funcs(path):
+    """[(name, lo, hi, [raise linenos])] for every function in the file"""
+    key = ("funcs", path)
+    if key in _state["stmts"]:
+        return _state["stmts"][key]
+    out = []
+    try:
+        with open(path) as f:
+            tree = ast.parse(f.read())
+        for cls in ast.walk(tree):
+            if isinstance(cls, ast.ClassDef):
+                for fn in cls.body:
+                    if isinstance(fn, (ast.FunctionDef,)):
+                        rs = sorted(n.lineno for n in ast.walk(fn) if isinstance(n, ast.Raise))
+                        spans = sorted((n.lineno, getattr(n, "end_lineno", n.lineno)) for n in ast.walk(fn) if isinstance(n, ast.Raise))
+                        out.append(("%s.%s" % (cls.name, fn.name), fn.lineno, fn.end_lineno, spans))
+    except Exception:
+        pass
+    _state["stmts"][key] = out
+    return out
+
+
+def guard_id(exc):
+    """'Class.function#k' - which explicit raise statement (k-th in source order within the
+    function) produced this guard; None if it is not a guard."""
+    frames = traceback.extract_tb(exc.__traceback__)
+    if not frames:
+        return None
+    last = frames[-1]
+    src = _source_for(last.filename)
+    if src is None or not _raise_lines(src).get(last.lineno, False):
+        return None
+    for name, lo, hi, spans in _funcs(src):
+        if lo <= last.lineno <= hi:
+            for k, (a, b) in enumerate(spans):
+                if a <= last.lineno <= b:
+                    return "%s#%d" % (name, k)
+    return "%s:%d" % (os.path.basename(src), last.lineno)
+
+
 def describe(exc):
     frames = traceback.extract_tb(exc.__traceback__)
     where = ""
